@@ -488,8 +488,8 @@ func (t *Type) GetAttrOrNil(name string) Object {
 	if res, ok := t.Dict[name]; ok {
 		return res
 	}
-	// Then look in type Dict
-	if res, ok := t.Type().Dict[name]; ok {
+	// Then look in the type's Dict and the type's base classes
+	if res := t.Type().NativeGetAttrOrNil(name); res != nil {
 		return res
 	}
 	// Now look through base classes etc
